@@ -13,7 +13,7 @@ def matchesFind (s : Service) (e : SDEntry) : Except Err Bool :=
   (if (!decide (e.ty = EntryType.find)) = true then .error .value else (if (!decide (s.sid = e.sid)) = true then .ok (false) else (if ((!decide (e.iid = 65535)) && (!decide (s.iid = e.iid))) = true then .ok (false) else (if ((!decide (e.maj = 255)) && (!decide (s.maj = e.maj))) = true then .ok (false) else (if ((!decide (e.val = 4294967295)) && (!decide (s.min = e.val))) = true then .ok (false) else .ok (true))))))
 
 def matchesSubscribe (s : Service) (e : SDEntry) : Except Err Bool :=
-  (if (!decide (e.ty = EntryType.subscribe)) = true then .error .value else (if (!decide (s.sid = e.sid)) = true then .ok (false) else (if ((!decide (s.iid = 65535)) && (!decide (s.iid = e.iid))) = true then .ok (false) else (if ((!(decide (255 = s.maj) || decide (255 = e.maj))) && (!decide (s.maj = e.maj))) = true then .ok (false) else .ok (decide (e.eventgroupId ∈ s.eventgroups))))))
+  (if (!decide (e.ty = EntryType.subscribe)) = true then .error .value else (if (!decide (s.sid = e.sid)) = true then .ok (false) else (if ((!decide (s.iid = 65535)) && (!decide (s.iid = e.iid))) = true then .ok (false) else (if ((!decide (s.maj = 255)) && (!decide (s.maj = e.maj))) = true then .ok (false) else .ok (decide (e.eventgroupId ∈ s.eventgroups))))))
 
 def matchesService (s o : Service) : Bool :=
   (if (!decide (s.sid = o.sid)) = true then false else (if ((!decide (s.iid = 65535)) && (!decide (o.iid = 65535)) && (!decide (s.iid = o.iid))) = true then false else (if ((!decide (s.maj = 255)) && (!decide (o.maj = 255)) && (!decide (s.maj = o.maj))) = true then false else (if ((!decide (s.min = 4294967295)) && (!decide (o.min = 4294967295)) && (!decide (s.min = o.min))) = true then false else true))))
